@@ -127,7 +127,8 @@ AllDone == \A c \in Conns : cl[c] = "done" /\ h[c] = "done"
 CloseListener == /\ ~closed /\ AllDone /\ loop = "accept" /\ closed' = TRUE
                  /\ UNCHANGED <<script, mx, loop, acc, backlog, cl, ip, req, rsp, rspv, eof, h, ml, permits, serving, sk, sa, obs>>
 
-Next == L \/ (\E c \in Conns : C(c)) \/ (\E c \in Conns : H(c)) \/ CloseListener
+\* (quantified over a constant range so that TLC labels every step with its thread; C / H check c \in Conns themselves)
+Next == L \/ (\E c \in 1..3 : C(c)) \/ (\E c \in 1..3 : H(c)) \/ CloseListener
 Spec == Init /\ [][Next]_vars
 
 \* ------------------------------------------------------------------------------ property clauses (C41)
